@@ -56,6 +56,10 @@ def main(argv):
         print(json.dumps({"reproduced": False, "detail": outcome}))
         return 0
     want = rec.get('obligation')
+    if want and want.startswith('frame.'):
+        # a frame obligation (write to shared state) has no native twin of the same name: natively the effect shows as some
+        # postcondition of the unit failing on this input (e.g. "the registry is not modified"); any of them reproduces it
+        want = None
     hit = [f for f in failures if want is None or f == want]
     note = None
     if not hit:
